@@ -36,7 +36,7 @@ int main(void)
             es = strtoull(t[2], NULL, 10); size_t cnt = strtoull(t[3], NULL, 10);
             th_reset(); neighbour = NULL; moved = 0;
             if (!strcmp(t[1], "heap")) { kind = 0; a = gp_arr_new(gp_heap, es, cnt); }
-            else if (!strcmp(t[1], "arena")) { kind = 1; arena = gp_arena_new(sizeof(GPArrayHeader) + ((es * cnt + 15) / 16 * 16)); arena.growth_coefficient = 0.0; a = gp_arr_new((GPAllocator*)&arena, es, cnt); }
+            else if (!strcmp(t[1], "arena")) { kind = 1; arena = gp_arena_new(sizeof(GPArrayHeader) + ((es * cnt + 15) / 16 * 16) - 15); /* not a multiple of the alignment: the library rounds it up to the array exactly */ arena.growth_coefficient = 0.0; a = gp_arr_new((GPAllocator*)&arena, es, cnt); }
             else if (!strcmp(t[1], "arena2")) { kind = 2; arena = gp_arena_new(0); a = gp_arr_new((GPAllocator*)&arena, es, cnt);
                 neighbour_n = 24; neighbour = gp_mem_alloc((GPAllocator*)&arena, neighbour_n); for (size_t i = 0; i < neighbour_n; i++) neighbour[i] = (uint8_t)(0xA5 ^ i); }
             else if (!strcmp(t[1], "scope")) { kind = 3; scope = gp_begin(0); a = gp_arr_new(scope, es, cnt); }
